@@ -9,6 +9,7 @@
 package remux
 
 import (
+	"bytes"
 	"encoding/hex"
 	"math/rand"
 	"time"
@@ -162,10 +163,54 @@ func (r *Rtmp2RtspRemuxer) FeedRtmpMsg(msg base.RtmpMsg) {
 	// 音视频头已通过sdp回调，rtp数据中不再包含音视频头
 	// TODO(chef): [opt] RtspRemuxerAddSpsPps2KeyFrameFlag 开启时，考虑更新sps 202207
 	if msg.IsAvcKeySeqHeader() || msg.IsHevcKeySeqHeader() || msg.IsAacSeqHeader() {
+		r.updateSdpIfVideoSeqHeaderChanged(msg)
 		return
 	}
 
 	r.remux(msg)
+}
+
+// updateSdpIfVideoSeqHeaderChanged
+//
+// The sdp is built once, when the analysis of the first messages is done. If the publisher sends a video sequence
+// header with other parameter sets later on, the frames that follow can only be decoded with the new ones, which a
+// rtsp subscriber learns from the sdp: rebuild it, so that subscribers that join from now on are described the
+// stream as it is.
+func (r *Rtmp2RtspRemuxer) updateSdpIfVideoSeqHeaderChanged(msg base.RtmpMsg) {
+	var vps, sps, pps []byte
+	var err error
+	switch {
+	case msg.IsAvcKeySeqHeader():
+		if r.videoPt != base.AvPacketPtAvc {
+			return
+		}
+		sps, pps, err = avc.ParseSpsPpsFromSeqHeader(msg.Payload)
+	case msg.IsHevcKeySeqHeader():
+		if r.videoPt != base.AvPacketPtHevc {
+			return
+		}
+		if msg.IsEnhanced() {
+			vps, sps, pps, err = hevc.ParseVpsSpsPpsFromEnhancedSeqHeader(msg.Payload)
+		} else {
+			vps, sps, pps, err = hevc.ParseVpsSpsPpsFromSeqHeader(msg.Payload)
+		}
+	default:
+		return
+	}
+	if err != nil {
+		return
+	}
+	if bytes.Equal(vps, r.vps) && bytes.Equal(sps, r.sps) && bytes.Equal(pps, r.pps) {
+		return
+	}
+
+	ctx, err := sdp.Pack(sdp.VideoInfo{VideoPt: r.videoPt, Vps: vps, Sps: sps, Pps: pps},
+		sdp.AudioInfo{AudioPt: r.audioPt, Asc: r.asc, SamplingFrequency: r.audioSampleRate})
+	if err != nil {
+		return
+	}
+	r.vps, r.sps, r.pps = vps, sps, pps
+	r.onSdp(ctx)
 }
 
 func (r *Rtmp2RtspRemuxer) doAnalyze() {
